@@ -251,12 +251,15 @@ pub struct Known {
     pub absorbed: AtomicU64,
 }
 
+/// `pat` is a '|'-separated list of alternatives, each an exact site or a prefix ending in '*'
 fn site_matches(pat: &str, site: &str) -> bool {
-    if let Some(p) = pat.strip_suffix('*') {
-        site.starts_with(p)
-    } else {
-        pat == site
-    }
+    pat.split('|').any(|alt| {
+        if let Some(p) = alt.strip_suffix('*') {
+            site.starts_with(p)
+        } else {
+            alt == site
+        }
+    })
 }
 
 pub fn load_known(path: &str, property: &str) -> Result<Vec<Known>, String> {
@@ -438,8 +441,8 @@ impl Reporter {
                 );
                 printed += 1;
             }
-            if viol_json.len() < 50 {
-                viol_json.push(json!({"site":v.site,"field":v.field,"instances":n,"replay":path}));
+            if viol_json.len() < 2000 {
+                viol_json.push(json!({"site":v.site,"field":v.field,"instances":n,"replay":path,"expected":trunc(&v.expected,80),"got":trunc(&v.got,80)}));
             }
         }
         let nviol = classes.len();
